@@ -472,20 +472,23 @@ def oracle(c, r):
         return out
     exact = _exact_domain(c)
     for i, row in enumerate(c["vals"]):
+        # outside the exact range: error bounded relative to the magnitude of the inputs
+        T = F(1, 10 ** 12) * max(F(sum(abs(a) + abs(b) for a, b in zip(row, c["y"])), 2 ** k), 1)
         if metric == "hamming":
             cnt = sum(1 for a, b in zip(row, c["y"]) if a != b)
             ok = got[i] == F(cnt / m)
             exp = "%d/%d" % (cnt, m)
         elif metric == "manhattan":
             e = F(sum(abs(a - b) for a, b in zip(row, c["y"])), 2 ** k)
-            ok = got[i] == e if exact else abs(got[i] - e) <= F(1, 10 ** 12) * max(e, 1)
+            ok = got[i] == e if exact else abs(got[i] - e) <= T
             exp = str(e)
         else:
             s = F(sum((a - b) ** 2 for a, b in zip(row, c["y"])), 4 ** k)
             if exact:
                 ok = got[i] == F(math.sqrt(float(s))) and float(s) == s
             else:
-                ok = got[i] >= 0 and abs(got[i] * got[i] - s) <= F(1, 10 ** 12) * max(s, 1)
+                g = got[i]
+                ok = g >= 0 and s <= (g + T) ** 2 and (g <= T or (g - T) ** 2 <= s)
             exp = "sqrt(%s)" % s
         if not ok:
             out.append(("value-" + metric, "row %d: got %s expected %s (dtype %s layout %s threads %d)" % (
